@@ -13,6 +13,7 @@ EXTRACTION_DROPS = [
     'undef/poison are nondeterministic values; atomics are sequential loads/stores; volatile ignored',
     'operator new = malloc that never fails; constant-size memcpy/memmove/memset = CBMC built-ins; symbolic-size = byte-loop model with stated bound (trusted models)',
     'compiler: clang 14 -O0 (evaluation order fixed to clang\'s); the shipped build uses g++ 12 -O2; compiler bugs out of scope',
+    'IR post-processing where a unit asks for it: opt -passes=sroa,mem2reg (alloca promotion only) or inline,sroa,mem2reg (function inlining first; the inliner prunes blocks that are unreachable after constant propagation, it removes no reachable potentially-trapping instruction) - used for loop-free shim-level contracts to keep the formula small',
     'machine integers are bit-vectors of their real width (no mathematical-integer abstraction)',
 ]
 
@@ -222,7 +223,7 @@ def report(plan, tier, seed, results, infra_msgs, wall, get_trace, update_baseli
         nobl = len(r.oblig)
         ndis = sum(1 for o in r.oblig if o['status'] == 'SUCCESS')
         # vacuity guard against the recorded baseline
-        if r.status == 'proved' and j.name in btier and nobl < 0.8 * btier[j.name]:
+        if r.status == 'proved' and not update_baseline and j.name in btier and nobl < 0.8 * btier[j.name]:
             r.status = 'undecided'
             r.reason = 'obligation count dropped from %d to %d (vacuity guard)' % (btier[j.name], nobl)
         if r.status == 'undecided':
